@@ -172,7 +172,14 @@ def single_case(draw):
 
 
 def _build_dataset(case, variant):
-    """variant 0: as generated; variant 1: rows reversed, other container, other dtype"""
+    """variant 0: as generated; variant 1: rows reversed, other container, other dtype;
+    variant 2: variant 0 taken apart and put together again by the library (split by condition,
+    merged: the same rows grouped by condition, descriptors in the containers the library makes)"""
+    if variant == 2:
+        from rsatoolbox.data.ops import merge_datasets
+        ds = _build_dataset(case, 0)
+        parts = ds.split_obs('cond')
+        return merge_datasets(parts)
     n = len(case['obs'])
     order = list(range(n)) if variant == 0 else list(range(n - 1, -1, -1))
     cont = case['container'] if variant == 0 else ('list' if case['container'] == 'array' else 'array')
@@ -218,8 +225,8 @@ def check_single(case):
     if rm and method in ('euclidean', 'mahalanobis'):
         om_alt = U.ref_matrix(method, means, noise, prior, False)
     atol = U.gram_atol(method, means, noise, prior)
-    for variant in (0, 1):
-        ds = _build_dataset(case, variant)
+    for variant in (0, 1, 2):
+        ds = lib(_build_dataset, case, variant, on_error='reject')
         arg = [ds] if form.startswith('list1') else ds
         what = 'calc_rdm(%s, %s, descriptor=%s, remove_mean=%s) [variant %d]' % (
             'dataset' if arg is ds else '[dataset]', method, None if nodesc else "'cond'", rm, variant)
